@@ -75,6 +75,7 @@ type Exec struct {
 	refBinders map[string]Val
 	undef map[string]Val
 	retCount int
+	alias map[string]string
 }
 
 type unsupported struct{ msg string }
@@ -130,7 +131,8 @@ func newExec(enc *Enc, fn *ssa.Function, name string, fc *FuncContract) *Exec {
 	return &Exec{enc: enc, fn: fn, name: name, fc: fc, vals: map[ssa.Value]Val{},
 		reach: map[*ssa.BasicBlock]string{}, exit: map[*ssa.BasicBlock]*State{},
 		edge: map[[2]int][]string{}, loops: map[*ssa.BasicBlock]*loopInfo{},
-		localGhost: map[string]string{}, inputs: map[string]string{}, siteCount: map[string]int{}, iterMap: map[*ssa.Range]Val{}, undef: map[string]Val{}}
+		localGhost: map[string]string{}, inputs: map[string]string{}, siteCount: map[string]int{}, iterMap: map[*ssa.Range]Val{}, undef: map[string]Val{},
+		alias: nameAliases(name, fn)}
 }
 
 func (x *Exec) findLoops() {
